@@ -51,7 +51,8 @@ StepSet(ast, scs, s, S) ==
              after(c) == LET r == EvalTop(ast, scs[k].sc, c) IN
                          IF ~OutcomeAgrees(mode, got, r[1], ill, hc) THEN {}
                          ELSE IF mode = "T" THEN {c}
-                         ELSE IF IsErr(got) THEN ErrStates(c, EvalAll(ast, <<>>, scs[k].sc, c, <<>>)[2])
+                         ELSE IF IsErr(got) \/ IsAny(r[1])    \* (an undecided value may hide an error or a short circuit)
+                              THEN ErrStates(c, EvalAll(ast, <<>>, scs[k].sc, c, <<>>)[2]) \cup {r[2]}
                          ELSE {r[2]}
          IN UNION { after(c) : c \in S }
 RECURSIVE FirstBadStateful(_, _, _, _, _)
